@@ -51,6 +51,14 @@ Theorem C16_context_closed : forall m s x f,
   In x (subs s) -> In f (local_findings m (ast_sub x)) -> In f (scan_findings em scan_root m [ast_stmt s]).
 Proof. exact (context_closed em em_covers_ok scan_root roots_cover_ok). Qed.
 
+(* Historical: EXPLAIN q / DESCRIBE q was parsed to DescribeStatement{TableName: "SELECT"} — the query parsed and thrown
+   away ([explain_pinned]), so a payload written in it had a position in the statement and no node in the tree.
+   Repaired in /repo c61589e (DescribeStatement.Query); [MExplain] is prescribed with the query since. *)
+Theorem C16_explain_query_dropped_refuted :
+  exists q x f, In x (subs (MExplain q)) /\ In f (local_findings (Some Low) (ast_sub x)) /\
+                ~ In f (scan_findings em scan_root (Some Low) [explain_pinned]).
+Proof. exact (explain_query_dropped em scan_root). Qed.
+
 (* nothing is reported that no node of the tree produces *)
 Theorem C16_findings_sound : forall m t f,
   In f (scan_findings em scan_root m [t]) -> exists n, qreach em t n /\ In f (local_findings m n).
@@ -94,6 +102,7 @@ Print Assumptions C16_scan_pure.
 Print Assumptions C16_position_visited.
 Print Assumptions C16_statement_is_root.
 Print Assumptions C16_context_closed.
+Print Assumptions C16_explain_query_dropped_refuted.
 Print Assumptions C16_findings_sound.
 Print Assumptions C16_literal_tautology.
 Print Assumptions C16_column_tautology.
